@@ -1030,23 +1030,14 @@ func (e *Engine) check(c *core.Ctx, sp spec) (*core.Outcome, error) {
 		_ = os.WriteFile(p, b, 0o644)
 	}
 	t0 := time.Now()
-	var plainRes, raceRes []Result
-	var perr, rerr error
+	var raceRes []Result
+	var rerr error
 	var wg sync.WaitGroup
-	wg.Add(1)
-	go func() { defer wg.Done(); plainRes, perr = e.RunAll(false, scs, 40, c.Jobs) }()
 	if len(raceScs) > 0 {
 		wg.Add(1)
 		go func() { defer wg.Done(); raceRes, rerr = e.RunAll(true, raceScs, 20, c.Jobs) }()
 	}
-	wg.Wait()
-	if perr != nil {
-		return nil, perr
-	}
-	if rerr != nil {
-		return nil, rerr
-	}
-	wall := time.Since(t0)
+	var wall time.Duration
 
 	out := &core.Outcome{}
 	type fail struct {
@@ -1061,53 +1052,74 @@ func (e *Engine) check(c *core.Ctx, sp spec) (*core.Outcome, error) {
 	probes := map[string]int{"multipart_part_spilled_to_temp_file": 0, "handler_not_reached": 0, "context_switch_inside_an_operation": 0, "invalid_request": 0, "duplicate_delivery": 0, "replay_from_getbody": 0, "head_damaged_before_ogen": 0}
 	var calls, yields, switches int
 	var fakeNS int64
-	for i := range plainRes {
-		res := &plainRes[i]
-		if res.ToolTrouble != "" {
-			return nil, build.Toolf("scenario %s: %s", res.ID, res.ToolTrouble)
+	// The plain runs are evaluated chunk by chunk: a result carries the canonical renderings of everything that
+	// was exchanged, and a thorough tier's worth of them does not have to sit in memory at once.
+	const chunk = 20000
+	sampleInfo := map[int]map[string]any{}
+	for lo := 0; lo < len(scs); lo += chunk {
+		hi := min(lo+chunk, len(scs))
+		plainRes, perr := e.RunAll(false, scs[lo:hi], 40, c.Jobs)
+		if perr != nil {
+			wg.Wait()
+			return nil, perr
 		}
-		if res.Missing || res.Aborted {
-			out.Violations = append(out.Violations, core.Violation{Key: "died", Oracle: "the simulation process survives", What: clip(res.Stderr, 1500), Seed: c.Seed, Scenario: replayScenario{"plain", scs[i]}})
-			continue
-		}
-		for _, p := range sp.apply(res) {
-			fails = append(fails, fail{scs[i], p, "plain"})
-		}
-		if res.Switches > 0 {
-			distinct[res.SchedHash] = true
-			probes["context_switch_inside_an_operation"]++
-		}
-		yields += res.Yields
-		switches += res.Switches
-		fakeNS += res.FakeNS
-		probes["multipart_part_spilled_to_temp_file"] += res.TempFiles
-		for _, r := range res.Conc {
-			calls++
-			opCount[r.Call.Op]++
-			if r.Call.Invalid != "" {
-				probes["invalid_request"]++
+		for j := range plainRes {
+			i := lo + j
+			res := &plainRes[j]
+			if i%max(1, len(scs)/3) == 0 {
+				sampleInfo[i] = map[string]any{"scenario": scs[i], "sched_hash": res.SchedHash, "yields": res.Yields, "context_switches": res.Switches}
 			}
-			if f := r.Call.Fault; f != nil {
-				configured[f.Kind]++
-				if r.FaultFired {
-					fired[f.Kind]++
-				}
+			if res.ToolTrouble != "" {
+				return nil, build.Toolf("scenario %s: %s", res.ID, res.ToolTrouble)
 			}
-			for _, s := range r.Sides {
-				if s.Delivered && s.HandlerCalls == 0 {
-					probes["handler_not_reached"]++
-				}
-				if !s.Delivered {
-					probes["head_damaged_before_ogen"]++
-				}
+			if res.Missing || res.Aborted {
+				out.Violations = append(out.Violations, core.Violation{Key: "died", Oracle: "the simulation process survives", What: clip(res.Stderr, 1500), Seed: c.Seed, Scenario: replayScenario{"plain", scs[i]}})
+				continue
 			}
-			if k := faultKind(r); k == "dup" {
-				probes["duplicate_delivery"]++
-			} else if k == "replay" {
-				probes["replay_from_getbody"]++
+			for _, p := range sp.apply(res) {
+				fails = append(fails, fail{scs[i], p, "plain"})
+			}
+			if res.Switches > 0 {
+				distinct[res.SchedHash] = true
+				probes["context_switch_inside_an_operation"]++
+			}
+			yields += res.Yields
+			switches += res.Switches
+			fakeNS += res.FakeNS
+			probes["multipart_part_spilled_to_temp_file"] += res.TempFiles
+			for _, r := range res.Conc {
+				calls++
+				opCount[r.Call.Op]++
+				if r.Call.Invalid != "" {
+					probes["invalid_request"]++
+				}
+				if f := r.Call.Fault; f != nil {
+					configured[f.Kind]++
+					if r.FaultFired {
+						fired[f.Kind]++
+					}
+				}
+				for _, s := range r.Sides {
+					if s.Delivered && s.HandlerCalls == 0 {
+						probes["handler_not_reached"]++
+					}
+					if !s.Delivered {
+						probes["head_damaged_before_ogen"]++
+					}
+				}
+				if k := faultKind(r); k == "dup" {
+					probes["duplicate_delivery"]++
+				} else if k == "replay" {
+					probes["replay_from_getbody"]++
+				}
 			}
 		}
 	}
+	wg.Wait()
+	if rerr != nil {
+		return nil, rerr
+	}
+	wall = time.Since(t0)
 	raceReports := 0
 	for i := range raceRes {
 		res := &raceRes[i]
@@ -1152,7 +1164,9 @@ func (e *Engine) check(c *core.Ctx, sp spec) (*core.Outcome, error) {
 
 	var samples []any
 	for i := 0; i < len(scs) && len(samples) < 3; i += max(1, len(scs)/3) {
-		samples = append(samples, map[string]any{"scenario": scs[i], "sched_hash": plainRes[i].SchedHash, "yields": plainRes[i].Yields, "context_switches": plainRes[i].Switches})
+		if si := sampleInfo[i]; si != nil {
+			samples = append(samples, si)
+		}
 	}
 	total := len(scs) + len(raceScs)
 	out.Evidence = &evid.Evidence{
